@@ -153,7 +153,7 @@ func runC05(c *Ctx) {
 		okSel := strings.HasPrefix(sel, "select[recv:cs.peerMsgQueue, recv:cs.internalMsgQueue, ")
 		c.Check("T", fnName(fn)+"/select cases are (peer queue, internal queue, timeout, quit)", okSel, fn.Pos(), 1, sel)
 		c.Guarded(fn, "handleMsg", CallTo(csT+`\.handleMsg$`, ""),
-			G("message is from the peer queue, or WriteSync(mi) == nil", IsNil(`^call:iface:\(consensus\.WAL\)\.WriteSync\(cs\.wal, mi\)$`), Cmp(`^select\[.*\]#0$`, "==", `^const:0$`)))
+			G("message is from the peer queue, or WriteSync(mi) == nil", IsNil(`^call:iface:\(consensus\.WAL\)\.WriteSync\(cs\.wal, (mi|select\[.*\]#3)\)$`), Cmp(`^select\[.*\]#0$`, "==", `^const:0$`)))
 		// what is written is what is handled
 		for _, in := range findInstrs(fn, walWrite) {
 			a := argPaths(callCommon(in))
